@@ -216,6 +216,9 @@ func (n *namer) genCmdBody(c *Cmd) {
 			if r.Chance(cfg.PDesc, 100) {
 				a.Desc = fmt.Sprintf("pd%03d positional text", id) + r.Pick([]string{"", "", "", " 100%", " %d"})
 			}
+			if a.T.K == KString && a.T.W == WScalar && a.Base == 0 && r.Chance(cfg.PNamedRest, 300) {
+				a.PtrSlice = true
+			}
 			if r.Chance(cfg.PPosLongTag, 100) {
 				a.ExtraLong = fmt.Sprintf("pl%03d", id)
 			}
@@ -295,6 +298,7 @@ func (n *namer) genCmdBody(c *Cmd) {
 		if a := c.Pos.Args[len(c.Pos.Args)-1]; a.IsRest() {
 			a.T.W = WScalar
 			a.NamedSlice = false
+			a.PtrSlice = false
 			a.Req = ""
 		}
 	}
